@@ -82,7 +82,7 @@ impl Prop for P {
         }
     }
     fn cases(tier: Tier) -> u64 {
-        tier.pick(250_000, 2_500_000)
+        tier.pick(350_000, 3_500_000)
     }
     fn strategy(_tier: Tier) -> BoxedStrategy<Case> {
         let h = (any_input(), proptest::collection::vec(any::<u8>(), 0..64), ops()).prop_map(|(input, other, ops)| Case::History { input, other, ops });
